@@ -325,26 +325,42 @@ h!(h_c11_weights_3, 7, prop_weights(3, false));
 h!(h_c11_weights_2_norm, 6, prop_weights(2, true));
 
 /// Infinite objective values are reported as None by the weight function and as Err by the
-/// operators that document it.
-fn infinite_is_err(n: usize) {
+/// operators that document it (one operator per harness: `which`).
+fn infinite_is_err(n: usize, which: u8) {
     let mut o = [0.0; 4];
     let pop = mk(n, &mut o, false);
     let k = sym::upto(n as u8 - 1) as usize;
     sym::assume(o[k] == f64::INFINITY);
-    assert!(f::proportional_weights(&pop, 1.0, false).is_none(), "proportional_weights: infinite objective gives None");
     let mut rng = sym_random(0);
-    assert!(Selection::<TagP>::select(&RouletteWheel::from_params(1, 1.0), &pop, &mut rng).is_err(), "RouletteWheel: infinite objective values are an error");
-    assert!(Selection::<TagP>::select(&StochasticUniversalSampling::from_params(1, 1.0), &pop, &mut rng).is_err(), "SUS: infinite objective values are an error");
-    assert!(Selection::<TagP>::select(&DeterministicFitnessProportional::from_params(1, 2), &pop, &mut rng).is_err(), "IWO selection: infinite objective values are an error");
+    match which {
+        0 => assert!(f::proportional_weights(&pop, 1.0, false).is_none(), "proportional_weights: infinite objective gives None"),
+        1 => assert!(Selection::<TagP>::select(&RouletteWheel::from_params(1, 1.0), &pop, &mut rng).is_err(), "RouletteWheel: infinite objective values are an error"),
+        2 => assert!(Selection::<TagP>::select(&StochasticUniversalSampling::from_params(1, 1.0), &pop, &mut rng).is_err(), "SUS: infinite objective values are an error"),
+        _ => assert!(Selection::<TagP>::select(&DeterministicFitnessProportional::from_params(1, 2), &pop, &mut rng).is_err(), "IWO selection: infinite objective values are an error"),
+    }
     assert!(draws() == 0, "no draw before the error");
     std::mem::forget((pop, rng));
 }
-// @h tier=quick bound="population 1 with an infinite objective" unwind=5
-h!(h_c11_infinite_1, 5, infinite_is_err(1));
-// @h tier=quick bound="population 2, any member infinite, the other any legal value" unwind=6
-h!(h_c11_infinite_2, 6, infinite_is_err(2));
-// @h tier=thorough bound="population 3, any member infinite" unwind=7
-h!(h_c11_infinite_3, 7, infinite_is_err(3));
+// @h tier=quick bound="population 1 with an infinite objective: proportional_weights" unwind=5
+h!(h_c11_infinite_1_weights, 5, infinite_is_err(1, 0));
+// @h tier=quick bound="population 1 with an infinite objective: RouletteWheel" unwind=5
+h!(h_c11_infinite_1_roulette, 5, infinite_is_err(1, 1));
+// @h tier=quick bound="population 1 with an infinite objective: SUS" unwind=5
+h!(h_c11_infinite_1_sus, 5, infinite_is_err(1, 2));
+// @h tier=quick bound="population 1 with an infinite objective: IWO selection" unwind=5
+h!(h_c11_infinite_1_iwo, 5, infinite_is_err(1, 3));
+// @h tier=quick bound="population 2, any member infinite, the other any legal value: proportional_weights" unwind=6
+h!(h_c11_infinite_2_weights, 6, infinite_is_err(2, 0));
+// @h tier=quick bound="population 2, any member infinite, the other any legal value: RouletteWheel" unwind=6
+h!(h_c11_infinite_2_roulette, 6, infinite_is_err(2, 1));
+// @h tier=quick bound="population 2, any member infinite, the other any legal value: SUS" unwind=6
+h!(h_c11_infinite_2_sus, 6, infinite_is_err(2, 2));
+// @h tier=quick bound="population 2, any member infinite, the other any legal value: IWO selection" unwind=6
+h!(h_c11_infinite_2_iwo, 6, infinite_is_err(2, 3));
+// @h tier=thorough bound="population 3, any member infinite: IWO selection" unwind=7
+h!(h_c11_infinite_3_iwo, 7, infinite_is_err(3, 3));
+// @h tier=thorough bound="population 3, any member infinite: RouletteWheel" unwind=7
+h!(h_c11_infinite_3_roulette, 7, infinite_is_err(3, 1));
 
 fn roulette(n: usize, k: u32) {
     let mut o = [0.0; 4];
